@@ -349,6 +349,33 @@ func runWriterHistory(c *WriterCase, cv *cov, hooks *writerHooks) (v *evid.Viola
 				}
 			}
 		}
+		if failed != nil {
+			// "sticks for every later call": also the calls with nothing to do, and in any order
+			before := len(sink.Writes)
+			calls := []struct {
+				name string
+				f    func() error
+			}{
+				{"WriteBinary(nil)", func() error { _, e := w.WriteBinary(nil); return e }},
+				{"WriteBinary(empty)", func() error { _, e := w.WriteBinary([]byte{}); return e }},
+				{"Malloc(0)", func() error { _, e := w.Malloc(0); return e }},
+				{"Malloc(-1)", func() error { _, e := w.Malloc(-1); return e }},
+				{"Flush", func() error { return w.Flush() }},
+				{"Malloc(1)", func() error { _, e := w.Malloc(1); return e }},
+				{"WriteBinary(nil) again", func() error { _, e := w.WriteBinary(nil); return e }},
+				{"Flush again", func() error { return w.Flush() }},
+			}
+			for _, cl := range calls {
+				if err := cl.f(); !errors.Is(err, failed) {
+					v = evid.Failf("after the history: %s after a sink failure (%v) returned err=%v, want the sink error", cl.name, failed, err)
+					return
+				}
+			}
+			if len(sink.Writes) != before || sink.After > 0 {
+				v = evid.Failf("calls after a sink failure (%v) wrote to the sink again", failed)
+				return
+			}
+		}
 	}
 	if p, st := evid.Safe(body); p != nil {
 		return &evid.Violation{Msg: fmt.Sprintf("panic at step %d %s(%d): %v", step, op.K, op.N, p), Stack: st}
@@ -652,5 +679,54 @@ func TestC05_LongLived(t *testing.T) {
 		}
 	}, rec)
 	rec.Sample(map[string]interface{}{"rounds": 2300, "malloc": 100, "writebin": 40, "bytes_writer": true, "target_cap": 4096})
+	rec.SetExhaustive()
+}
+
+// TestC05_ManyGrowths: many growths of the buffer within ONE flush interval, with regions that were handed out
+// before the growths and are filled only afterwards. A bytes writer over a tiny slice doubles its buffer once
+// per Malloc when the sizes double, so 22 Mallocs give 22 growths with a few MiB in total.
+func TestC05_ManyGrowths(t *testing.T) {
+	rec := evid.New("C05", "c05_many_growths", "enumeration: bytes writers over initial slices of capacity {0 (nil), 1, 2, 3, 8, 64} (length 0 or 1) and a stream writer: g in {1..24} Mallocs of 1, 2, 4, ... 2^(g-1) bytes (stream writer: 4096 << i, g <= 12) in one flush interval, every second region filled only after the last growth (in reverse order), then Flush; then a second, shorter interval on the same writer; full C05 oracle; every (initial slice, g) is one evaluation; distinct by construction")
+	defer rec.Flush()
+	bt := evid.NewBatch()
+	type init struct {
+		bytes    bool
+		nilInit  bool
+		ilen, ic int
+	}
+	inits := []init{{true, true, 0, 0}, {true, false, 0, 1}, {true, false, 1, 1}, {true, false, 1, 2}, {true, false, 0, 3}, {true, false, 1, 8}, {true, false, 1, 64}, {false, false, 0, 0}}
+	for _, in := range inits {
+		maxG := 24
+		if !in.bytes {
+			maxG = 12
+		}
+		for g := 1; g <= maxG; g++ {
+			var ops []WOp
+			for i := 0; i < g; i++ {
+				n := 1 << uint(i)
+				if !in.bytes {
+					n = 4096 << uint(i)
+				}
+				k := "malloc"
+				if i%2 == 0 {
+					k = "lazy"
+				}
+				ops = append(ops, WOp{k, n})
+			}
+			ops = append(ops, WOp{"flush", 0}, WOp{"lazy", 3}, WOp{"malloc", 5000}, WOp{"lazy", 70000}, WOp{"flush", 0})
+			c := WriterCase{Bytes: in.bytes, NilInit: in.nilInit, InitLen: in.ilen, InitCap: in.ic, Ops: ops}
+			var cv cov
+			v := checkWriterCase(c, &cv)
+			bt.Evals++
+			bt.Distinct++
+			bt.Nontrivial++
+			if v != nil {
+				failEnum(t, rec, "c05_writer_history", c, v)
+				rec.Merge(bt)
+				return
+			}
+		}
+	}
+	rec.Merge(bt)
 	rec.SetExhaustive()
 }
